@@ -24,6 +24,8 @@ import (
 //	noack      client C stops acknowledging deliveries (they stay open and are re-sent at every sweep)
 //	pub2hold   client C publishes at QoS 2 with packet identifier PID and keeps the PUBREL back
 //	pub2rel    client C releases the exchange PID it holds (PUBREL): only now is the message forwarded
+//	failrestart node Node fails and comes back under its id at once (no waiting for the survivors' purge)
+//	wait       IdleMs of REAL time pass
 //	restartnode a failed node comes back under the same node id (empty state), see Cluster.RestartNode
 //	failnode   node Node fails; survivors are notified
 //	sweep      every node's in-flight table is swept with now = far future (all pending entries expire)
@@ -553,6 +555,45 @@ func (w *World) Apply(st Step) (problem string, inconclusive bool) {
 			}
 			time.Sleep(20 * time.Millisecond)
 		}
+		if !settle() {
+			return
+		}
+	case "failrestart":
+		// the node's process dies and a new one comes up under the same node id at once, well
+		// inside the 3 s after which the survivors purge the failed peer's records. No waiting
+		// here: the script decides what happens inside that window ("wait" steps).
+		i := st.Node % len(w.Cl.Nodes)
+		n := w.Cl.Nodes[i]
+		live := 0
+		for _, x := range w.Cl.Nodes {
+			if !x.Down {
+				live++
+			}
+		}
+		if n.Down || live <= 1 {
+			return "", false
+		}
+		w.Cl.FailNode(n)
+		var dying []*Sess
+		for _, x := range w.S {
+			if x.Alive && x.Node == n {
+				dying = append(dying, x)
+				x.Alive = false
+			}
+		}
+		for _, x := range dying {
+			x.Alive = true
+			w.endSession(x, "nodefail")
+		}
+		if _, err := w.Cl.RestartNode(i); err != nil {
+			return err.Error(), true
+		}
+		if !settle() {
+			return
+		}
+	case "wait":
+		// real time passes (the purge of a failed peer's records runs on a 3 s real-time timer)
+		time.Sleep(time.Duration(st.IdleMs) * time.Millisecond)
 		if !settle() {
 			return
 		}
